@@ -504,6 +504,9 @@ class Gen:
         if k == "alias":
             return ["alias", r.choice(NAMES[:4]), self.b()]
         if k == "opaque0":
+            if r.random() < 0.2:
+                # the OPAQUE spelling of a type the core also knows (a document may spell usize / string that way)
+                return ["opaque", "prelude", r.choice(["usize", "string", "qubit"]), [], "C"]
             return ["opaque", r.choice(["ext.a", "b", HEXT]), r.choice(["X", "Y"]), [], self.b()]
         if k == "sum":
             return ["sum", [self.row(d, 2) for _ in range(r.randint(0, 3))]]
